@@ -19,8 +19,8 @@ impl PollHeader for Header {
 
     fn build_empty_packet(&self) -> Option<Self::Packet> {
         let packet = match self.typ {
-            PacketType::Pingreq => Packet::Pingreq,
-            PacketType::Pingresp => Packet::Pingresp,
+            PacketType::Pingreq if self.remaining_len == 0 => Packet::Pingreq,
+            PacketType::Pingresp if self.remaining_len == 0 => Packet::Pingresp,
             PacketType::Auth if self.remaining_len == 0 => Auth::new_success().into(),
             PacketType::Disconnect if self.remaining_len == 0 => Disconnect::new_normal().into(),
             _ => return None,
@@ -49,7 +49,9 @@ impl PollHeader for Header {
                 block_on(Disconnect::decode_async(reader, self)).map(Into::into)
             }
             PacketType::Auth => block_on(Auth::decode_async(reader, self)).map(Into::into),
-            PacketType::Pingreq | PacketType::Pingresp => unreachable!(),
+            PacketType::Pingreq | PacketType::Pingresp => {
+                Err(crate::Error::InvalidRemainingLength.into())
+            }
         }
     }
 
